@@ -12,27 +12,15 @@ def contracts():
     c = {}
     c["renew_in"] = FnSpec(ret="r", sig="""
     ensures
-        // wait until notAfter - renew_delay, minus a random amount in [0, random_early_renew): never longer, never negative
-        r matches Ok(d) ==> (exists|j: nat| (if dur(self.random_early_renew) == 0 { j == 0 } else { j < dur(self.random_early_renew) })
-            && dur(d) == sat_sub(sat_sub(crate::acme_common::crypto::cert_expires_ns(*cert), dur(self.renew_delay)), j)), //@C06.wait_is_expiry_minus_delay_minus_jitter
-""", rewrites=[], at=[("before_stmt", "Ok(expires_in)", 1, """
-        proof {
-            let e0 = sat_sub(crate::acme_common::crypto::cert_expires_ns(*cert), dur(self.renew_delay));
-            if dur(self.random_early_renew) == 0 {
-                assert(dur(expires_in) == sat_sub(e0, 0));
-            } else {
-                let j = (e0 - dur(expires_in)) as nat;
-                assert(dur(expires_in) == sat_sub(e0, jitter__));
-            }
-        }"""),
-        ("after_stmt", "let expires_in = expires_in.saturating_sub(", 1, "let ghost mut jitter__: nat = 0;"),
-        ],
-    )
-    # the random value is named by a rewrite so that the proof can refer to it
-    def let_jitter(m):
-        rng = m.group("r").replace("Duration::ZERO", "crate::rand::duration_zero()")
-        return "{ let jit__ = thread_rng().gen_range(" + rng + "); proof { jitter__ = dur(jit__); } expires_in.saturating_sub(jit__) }"
-    c["renew_in"].rewrites.append(("T-LET", r"expires_in\s*\.saturating_sub\(thread_rng\(\)\.gen_range\((?P<r>[^;]*?)\)\)", let_jitter))
+        // wait until notAfter - renew_delay (X), minus a random amount in [0, random_early_renew): never longer than X,
+        // never negative, exactly X without jitter, and earlier than X by less than random_early_renew
+        r matches Ok(d) ==> ({
+            let x = sat_sub(crate::acme_common::crypto::cert_expires_ns(*cert), dur(self.renew_delay));
+            &&& dur(d) <= x
+            &&& (dur(self.random_early_renew) == 0 ==> dur(d) == x)
+            &&& (dur(self.random_early_renew) > 0 ==> dur(d) + dur(self.random_early_renew) > x)
+        }), //@C06.wait_is_expiry_minus_delay_minus_jitter
+""", rewrites=[ZERO])
     c["has_missing_identifiers"] = FnSpec(ret="r", sig="""
     ensures r == !id_values(self.identifiers@).subset_of(crate::acme_common::crypto::cert_san(*cert)), //@C06.missing_identifier_detected
 """, rewrites=[("T-ITER", r"self\s*\.identifiers\s*\.iter\(\)\s*\.map\(\|v\| v\.value\.to_owned\(\)\)\s*\.collect::<HashSet<String>>\(\)",
